@@ -932,8 +932,16 @@ def uncg_replay(v, c, cgsys, u):
     ng = max(im) + 1
     N, data = u["N"], u["data"]
     traj = RDTrajectory(data=UnitArray(data, cgsys.state.units), t_sample=UnitArray([float(k) for k in range(N)], "s"), system=cgsys)
+    before = np.array(traj.data.value, dtype=float).tobytes()
     out = uncoarsegrain_trajectory(traj, build(c), im)
     vals = [float(x) for x in np.asarray(out.data.value).ravel()]
+    if np.array(traj.data.value, dtype=float).tobytes() != before:
+        v.violation("uncg:modifies-input", "the coarse trajectory was modified: %s -> %s" % (data[:6], [float(x) for x in np.asarray(traj.data.value).ravel()][:6]), {})
+        return
+    vals2 = [float(x) for x in np.asarray(uncoarsegrain_trajectory(traj, build(c), im).data.value).ravel()]
+    if vals2 != vals:
+        v.violation("uncg:second-call", "a second call on the same coarse trajectory gives another result", {})
+        return
     members = [[i for i in range(n) if im[i] == g] for g in range(ng)]
     for k in range(N):
         for s in range(ns):
